@@ -1,2 +1,122 @@
--- stub: replaced when the area is built
-def main : IO Unit := pure ()
+import Nstd.Common.Basic
+import Nstd.Seq.Model
+/-
+  Line protocol of the Seq area (List / PoolList / Array of int, two variables of each kind).
+  One op per line.  Observation line:
+
+     r=<ret|-> n=<#new[]> d=<#delete[]> | <container> | <container> ...
+
+  with the containers the op touches:
+     l<v> <size> <isEmpty> <values> <node ids>      (List;  p<v> … for PoolList)
+     a<v> <size> <capacity> <has storage> <values>  (Array)
+  values / ids comma separated, `-` when empty.  `ret` = returned iterator / reference as position
+  (`size` = end()), the value for front/back/[] and 0/1 for `==`.
+  `bad-op` = the op's precondition does not hold (or the line is malformed); the state is unchanged.
+-/
+open Nstd.Common
+namespace Nstd.Seq
+
+def csv {α} (f : α → String) (xs : List α) : String :=
+  if xs.isEmpty then "-" else ",".intercalate (xs.map f)
+
+def obsL (tag : String) (v : Nat) (s : LState) : String :=
+  s!"{tag}{v} {s.size} {if s.isEmpty then 1 else 0} {csv toString s.vals} {csv toString s.ids}"
+
+def obsA (v : Nat) (s : AState) : String :=
+  s!"a{v} {s.size} {s.cap} {if s.data.isSome then 1 else 0} {csv toString s.elems}"
+
+inductive Show where | l (v : Nat) | p (v : Nat) | a (v : Nat)
+
+def showOne (s : State) : Show → String
+  | .l v => obsL "l" v (s.getL v)
+  | .p v => obsL "p" v (s.getP v)
+  | .a v => obsA v (s.getA v)
+
+def touched : Op → List Show
+  | .linsertl v _ | .lappendl v | .lprependl v | .lswap v | .lcopy v | .lassign v => [.l v, .l (1 - v)]
+  | .leq _ _ => []
+  | .lappend v _ | .lprepend v _ | .linsert v _ _ | .lremove v _ | .lremovev v _ | .lremoveFront v
+  | .lremoveBack v | .lclear v | .lfind v _ | .lfront v | .lback v | .lsort v => [.l v]
+  | .pswap v => [.p v, .p (1 - v)]
+  | .pappend v _ | .premove v _ | .premovev v _ | .premoveFront v | .premoveBack v | .pclear v
+  | .pfront v | .pback v => [.p v]
+  | .acopy v | .aassign v | .aappenda v | .aswap v => [.a v, .a (1 - v)]
+  | .anew v | .anewcap v _ | .areserve v _ | .aresize v _ _ | .aappend v _ | .aappendn v _
+  | .aremovei v _ | .aremove v _ | .aremoveFront v | .aremoveBack v | .aclear v | .afind v _
+  | .aget v _ | .afront v | .aback v => [.a v]
+
+def parseInts (t : String) : Option (List Int) :=
+  if t == "-" then some [] else (t.splitOn ",").mapM String.toInt?
+
+def parseOp (ws : List String) : Option Op :=
+  match ws with
+  | ["lappend", v, x] => do pure (.lappend (← v.toNat?) (← x.toInt?))
+  | ["lprepend", v, x] => do pure (.lprepend (← v.toNat?) (← x.toInt?))
+  | ["linsert", v, p, x] => do pure (.linsert (← v.toNat?) (← p.toNat?) (← x.toInt?))
+  | ["linsertl", v, p] => do pure (.linsertl (← v.toNat?) (← p.toNat?))
+  | ["lappendl", v] => do pure (.lappendl (← v.toNat?))
+  | ["lprependl", v] => do pure (.lprependl (← v.toNat?))
+  | ["lremove", v, p] => do pure (.lremove (← v.toNat?) (← p.toNat?))
+  | ["lremovev", v, x] => do pure (.lremovev (← v.toNat?) (← x.toInt?))
+  | ["lremoveFront", v] => do pure (.lremoveFront (← v.toNat?))
+  | ["lremoveBack", v] => do pure (.lremoveBack (← v.toNat?))
+  | ["lclear", v] => do pure (.lclear (← v.toNat?))
+  | ["lswap", v] => do pure (.lswap (← v.toNat?))
+  | ["lcopy", v] => do pure (.lcopy (← v.toNat?))
+  | ["lassign", v] => do pure (.lassign (← v.toNat?))
+  | ["lfind", v, x] => do pure (.lfind (← v.toNat?) (← x.toInt?))
+  | ["leq", v, w] => do pure (.leq (← v.toNat?) (← w.toNat?))
+  | ["lfront", v] => do pure (.lfront (← v.toNat?))
+  | ["lback", v] => do pure (.lback (← v.toNat?))
+  | ["lsort", v] => do pure (.lsort (← v.toNat?))
+  | ["pappend", v, x] => do pure (.pappend (← v.toNat?) (← x.toInt?))
+  | ["premove", v, p] => do pure (.premove (← v.toNat?) (← p.toNat?))
+  | ["premovev", v, p] => do pure (.premovev (← v.toNat?) (← p.toNat?))
+  | ["premoveFront", v] => do pure (.premoveFront (← v.toNat?))
+  | ["premoveBack", v] => do pure (.premoveBack (← v.toNat?))
+  | ["pclear", v] => do pure (.pclear (← v.toNat?))
+  | ["pswap", v] => do pure (.pswap (← v.toNat?))
+  | ["pfront", v] => do pure (.pfront (← v.toNat?))
+  | ["pback", v] => do pure (.pback (← v.toNat?))
+  | ["anew", v] => do pure (.anew (← v.toNat?))
+  | ["anewcap", v, n] => do pure (.anewcap (← v.toNat?) (← n.toNat?))
+  | ["acopy", v] => do pure (.acopy (← v.toNat?))
+  | ["aassign", v] => do pure (.aassign (← v.toNat?))
+  | ["areserve", v, n] => do pure (.areserve (← v.toNat?) (← n.toNat?))
+  | ["aresize", v, n, x] => do pure (.aresize (← v.toNat?) (← n.toNat?) (← x.toInt?))
+  | ["aappend", v, x] => do pure (.aappend (← v.toNat?) (← x.toInt?))
+  | ["aappenda", v] => do pure (.aappenda (← v.toNat?))
+  | ["aappendn", v, xs] => do pure (.aappendn (← v.toNat?) (← parseInts xs))
+  | ["aremovei", v, i] => do pure (.aremovei (← v.toNat?) (← i.toNat?))
+  | ["aremove", v, p] => do pure (.aremove (← v.toNat?) (← p.toNat?))
+  | ["aremoveFront", v] => do pure (.aremoveFront (← v.toNat?))
+  | ["aremoveBack", v] => do pure (.aremoveBack (← v.toNat?))
+  | ["aclear", v] => do pure (.aclear (← v.toNat?))
+  | ["aswap", v] => do pure (.aswap (← v.toNat?))
+  | ["afind", v, x] => do pure (.afind (← v.toNat?) (← x.toInt?))
+  | ["aget", v, i] => do pure (.aget (← v.toNat?) (← i.toNat?))
+  | ["afront", v] => do pure (.afront (← v.toNat?))
+  | ["aback", v] => do pure (.aback (← v.toNat?))
+  | _ => none
+
+def allShown : List Show := [.l 0, .l 1, .p 0, .p 1, .a 0, .a 1]
+
+def line (s : State) (ret : Option Int) (n d : Nat) (sh : List Show) : String :=
+  let r := match ret with | some x => toString x | none => "-"
+  " | ".intercalate (s!"r={r} n={n} d={d}" :: sh.map (showOne s))
+
+def stepLine (st : State) (ws : List String) : State × String :=
+  match ws with
+  | ["reset"] => ({}, line {} none 0 0 allShown)
+  | ["dump"] => (st, line st none 0 0 allShown)
+  | _ =>
+    match parseOp ws with
+    | none => (st, "bad-op")
+    | some op =>
+      match step st op with
+      | some r => (r.st, line r.st r.ret r.allocs r.frees (touched op))
+      | none => (st, "bad-op")
+
+end Nstd.Seq
+
+def main : IO Unit := Nstd.Common.ioLoop ({} : Nstd.Seq.State) Nstd.Seq.stepLine
